@@ -2,6 +2,8 @@ package gendriver
 
 import (
 	"bytes"
+	"math"
+	"reflect"
 	"strconv"
 	"strings"
 
@@ -12,15 +14,62 @@ import (
 	"google.golang.org/protobuf/reflect/protoregistry"
 )
 
-// fresh deep copy through the runtime (never copies the size cache), marshaled by the generated code
+// fresh deep copy through the runtime (never copies the size cache).  protobuf-go's Clone goes through
+// Range, which does not visit a proto3 float field holding -0.0 (Has reports it unset although Marshal writes it):
+// such values are copied over by hand so that the copy really has the same contents.
+func freshCopy(m interface{}) interface{} {
+	var c interface{}
+	if runtimeName == "gogo" {
+		c = gogoproto.Clone(m.(gogoproto.Message))
+	} else {
+		c = proto.Clone(m.(proto.Message))
+	}
+	copyNegZero(reflect.ValueOf(m), reflect.ValueOf(c))
+	return c
+}
+
+func copyNegZero(o, c reflect.Value) {
+	if !o.IsValid() || !c.IsValid() || o.Type() != c.Type() {
+		return
+	}
+	switch o.Kind() {
+	case reflect.Ptr, reflect.Interface:
+		if !o.IsNil() && !c.IsNil() {
+			copyNegZero(o.Elem(), c.Elem())
+		}
+	case reflect.Struct:
+		for i := 0; i < o.NumField(); i++ {
+			if o.Type().Field(i).PkgPath != "" {
+				continue // unexported: runtime state
+			}
+			of, cf := o.Field(i), c.Field(i)
+			switch of.Kind() {
+			case reflect.Float32, reflect.Float64:
+				if of.Float() == 0 && math.Signbit(of.Float()) && cf.CanSet() {
+					cf.SetFloat(of.Float())
+				}
+			default:
+				copyNegZero(of, cf)
+			}
+		}
+	case reflect.Slice:
+		if o.Len() == c.Len() && (o.Type().Elem().Kind() == reflect.Ptr || o.Type().Elem().Kind() == reflect.Struct) {
+			for i := 0; i < o.Len(); i++ {
+				copyNegZero(o.Index(i), c.Index(i))
+			}
+		}
+	case reflect.Map:
+		if o.Type().Elem().Kind() == reflect.Ptr {
+			for _, k := range o.MapKeys() {
+				copyNegZero(o.MapIndex(k), c.MapIndex(k))
+			}
+		}
+	}
+}
+
 func freshMarshal(m interface{}) string {
 	return guard(func() string {
-		var c interface{}
-		if runtimeName == "gogo" {
-			c = gogoproto.Clone(m.(gogoproto.Message))
-		} else {
-			c = proto.Clone(m.(proto.Message))
-		}
+		c := freshCopy(m)
 		b, err := c.(marshaler).Marshal()
 		if err != nil {
 			return "err"
@@ -32,13 +81,7 @@ func freshMarshal(m interface{}) string {
 // Size() of a fresh deep copy
 func freshSize(m interface{}) string {
 	return guard(func() string {
-		var c interface{}
-		if runtimeName == "gogo" {
-			c = gogoproto.Clone(m.(gogoproto.Message))
-		} else {
-			c = proto.Clone(m.(proto.Message))
-		}
-		return strconv.Itoa(c.(sizer).Size())
+		return strconv.Itoa(freshCopy(m).(sizer).Size())
 	})
 }
 
